@@ -59,6 +59,10 @@ func liesCatalogue() []liesItem {
 	for rep := 0; rep < 3; rep++ {
 		out = append(out, liesItem{"blocks", "too-few-not-last", "long", "", 10 + rep}, liesItem{"blocks", "empty-not-last", "long", "", 10 + rep})
 	}
+	// a self-consistent branch with a consensus-invalid block below the require
+	// height, long enough that its tail arrives pre-validated on top of a first
+	// request that was only stored
+	out = append(out, liesItem{"synthetic", "invalid-ancestor", "cross-require", "", 20}, liesItem{"synthetic", "invalid-ancestor", "cross-require", "", 55}, liesItem{"synthetic", "invalid-ancestor", "cross-require", "", 59})
 	// instant sync of several requests: the liar answers from a valid sibling
 	// branch that leaves the honest chain right at the victim's checkpoint
 	for rep := 0; rep < 5; rep++ {
@@ -119,6 +123,11 @@ func liesCase(it liesItem) C11Case {
 		tc.Net = kit.NetSpec{Maturity: 1, Allow: 1, ReqOff: 1, CutOff: 2}
 		chainLen = 250
 	}
+	if it.Regime == "cross-require" {
+		// require height 60; honest chain 120 blocks
+		tc.Net = kit.NetSpec{Maturity: 1, Allow: 2, ReqOff: 58, CutOff: 2}
+		chainLen = 120
+	}
 	if it.Regime == "long" {
 		// v2 allowed from height 2, required only at 302: every block is a v2
 		// block on the AddBlocks path
@@ -126,7 +135,7 @@ func liesCase(it liesItem) C11Case {
 		chainLen = 250
 	}
 	for i := 0; i < chainLen; i++ {
-		if (it.Regime == "long" || it.Regime == "long-instant") && i%25 != 0 {
+		if (it.Regime == "long" || it.Regime == "long-instant" || it.Regime == "cross-require") && i%25 != 0 {
 			tc.Blocks = append(tc.Blocks, kit.BlockSpec{Dt: 1, Miner: i % 4, OnBad: true})
 			continue
 		}
@@ -165,6 +174,15 @@ func liesCase(it liesItem) C11Case {
 		c.Bootstrap = liesBootstrap
 	}
 	c.Byz = []ByzSpec{{Tip: h, Corr: p2px.Corruption{RPC: it.RPC, Kind: it.Kind, Arg: it.Arg}, Dial: len(it.RPC) > 5 && it.RPC[:5] == "relay"}}
+	if it.RPC == "synthetic" {
+		// the victim holds the whole honest chain (tip above the fork point); the
+		// liar's branch leaves it at height 10, has its invalid block at height
+		// it.Arg (< require) and is 30 blocks longer than the honest chain
+		c.Byz = nil
+		c.Victim = h
+		c.HonestDelayMS = 0
+		c.Synth = &SynthSpec{Fork: 10, BadAt: it.Arg, Len: 140}
+	}
 	if it.RPC == "slowloris" {
 		c.Byz = nil
 		c.HonestDelayMS = 0
@@ -206,7 +224,7 @@ func TestC11Lies(t *testing.T) {
 		cs.Add("lies_enumerated", 1)
 		cs.Class("enumerated:" + it.Regime)
 		if err == nil {
-			if (len(info.Delivered) == 1 && info.Delivered[0]) || (c.Slow != nil && info.SlowHeld) {
+			if (len(info.Delivered) == 1 && info.Delivered[0]) || (c.Slow != nil && info.SlowHeld) || (c.Synth != nil && info.SynthReached) {
 				cs.Add("lies_delivered", 1)
 			} else {
 				cs.Inconclusive("lie-not-reached:" + it.key())
